@@ -1,3 +1,159 @@
-(** * C02 (placeholder while the proofs are being written) *)
+(** * C02: operators and expressions compute their documented value at run time.
+
+    [ExprRef.tyof] / [ExprRef.xeval] : the documented result type and value of an expression tree (Models/ExprRef.v,
+    written from the property text).  The per-design obligations of harness/c02.py prove, for the text the compiler
+    emitted on this run, [trace (parsed VHDL) = trace (expr_step tree)] over all operand valuations.  The theorems
+    below are the all-widths half:
+    - C02_type_width: every well-typed tree evaluates (where defined) to a value of exactly [tyof] type and width, in range;
+    - C02_agrees_with_numeric_std_*: per operator family the documented value IS what numeric_std (Vhdl/NumStd.v)
+      computes on the operand shape the backend emits, for all widths and all operand values;
+      _partial / _refuted where the two genuinely differ (each replayed on the real compiler by harness/c02.py):
+        * an int factor not representable at the vector's width (numeric_std converts it to that width first),
+        * unary minus on Unsigned (numeric_std has no such operator),
+        * a negative int next to an Unsigned (numeric_std's NATURAL subtype);
+      not covered here (checked per design only): bitwise operators on Signed, shifts, resize, views, Signed/int
+      mixed arithmetic, division with an int operand;
+    - C02_select_first_match, C02_chained_compare_is_conjunction, C02_concat_msb_left, C02_shift_right_kind. *)
 From Coq Require Import ZArith NArith List Bool Lia.
-From Cohdl Require Import Base.Bits Vhdl.Value Vhdl.NumStd Models.ExprRef.
+From Cohdl Require Import Base.Bits Vhdl.Value Vhdl.NumStd Equiv.RefTS Models.ExprRef Models.ExprRefProofs.
+Import ListNotations.
+Local Open Scope Z_scope.
+
+Theorem C02_type_width : forall e t en, tyof e = Some t -> vok t (xeval en e) = true.
+Proof. exact type_width. Qed.
+Print Assumptions C02_type_width.
+
+Example C02_type_width_nonvacuous : tyof ex_tree = Some (Ty KS 4) /\ xeval ex_env ex_tree = TV KS 4 (-2).
+Proof. exact type_width_nonvacuous. Qed.
+Print Assumptions C02_type_width_nonvacuous.
+
+Theorem C02_agrees_with_numeric_std_arith_unsigned : forall op o wa wb a b,
+  arith_op op = Some o -> (op = BAdd \/ op = BSub \/ op = BMul) -> rng KU wa a -> rng KU wb b ->
+  eval_binop o (scalar_value KU wa a) (scalar_value KU wb b) = Ok (to_value (bin_eval op (TV KU wa a) (TV KU wb b))).
+Proof. exact arith_agrees_UU. Qed.
+Print Assumptions C02_agrees_with_numeric_std_arith_unsigned.
+
+Theorem C02_agrees_with_numeric_std_arith_signed : forall op o wa wb a b,
+  arith_op op = Some o -> (op = BAdd \/ op = BSub \/ op = BMul) -> rng KS wa a -> rng KS wb b ->
+  eval_binop o (scalar_value KS wa a) (scalar_value KS wb b) = Ok (to_value (bin_eval op (TV KS wa a) (TV KS wb b))).
+Proof. exact arith_agrees_SS. Qed.
+Print Assumptions C02_agrees_with_numeric_std_arith_signed.
+
+Example C02_arith_nonvacuous : rng KS 3 (-4) /\ rng KS 2 1 /\ rng KU 3 7 /\
+  bin_eval BMul (TV KS 3 (-4)) (TV KS 2 1) = TV KS 5 (-4) /\ bin_eval BAdd (TV KU 3 7) (TV KU 2 3) = TV KU 3 2.
+Proof. vm_compute. auto 10. Qed.
+Print Assumptions C02_arith_nonvacuous.
+
+Theorem C02_agrees_with_numeric_std_divmod_unsigned : forall op o wa wb a b,
+  arith_op op = Some o -> (op = BTruncDiv \/ op = BMod \/ op = BRem) -> rng KU wa a -> rng KU wb b -> b <> 0 ->
+  eval_binop o (scalar_value KU wa a) (scalar_value KU wb b) = Ok (to_value (bin_eval op (TV KU wa a) (TV KU wb b))).
+Proof. exact divmod_agrees_UU. Qed.
+Print Assumptions C02_agrees_with_numeric_std_divmod_unsigned.
+
+Theorem C02_agrees_with_numeric_std_divmod_signed : forall op o wa wb a b,
+  arith_op op = Some o -> (op = BTruncDiv \/ op = BMod \/ op = BRem) -> rng KS wa a -> rng KS wb b -> b <> 0 ->
+  eval_binop o (scalar_value KS wa a) (scalar_value KS wb b) = Ok (to_value (bin_eval op (TV KS wa a) (TV KS wb b))).
+Proof. exact divmod_agrees_SS. Qed.
+Print Assumptions C02_agrees_with_numeric_std_divmod_signed.
+
+Example C02_divmod_nonvacuous : rng KS 3 (-4) /\ rng KS 3 3 /\
+  bin_eval BTruncDiv (TV KS 3 (-4)) (TV KS 3 3) = TV KS 3 (-1) /\ bin_eval BMod (TV KS 3 (-4)) (TV KS 3 3) = TV KS 3 2 /\
+  bin_eval BRem (TV KS 3 (-4)) (TV KS 3 3) = TV KS 3 (-1) /\ bin_eval BTruncDiv (TV KS 3 (-4)) (TV KS 1 (-1)) = TV KS 3 (-4).
+Proof. vm_compute. auto 10. Qed.
+Print Assumptions C02_divmod_nonvacuous.
+
+Theorem C02_division_by_zero_undefined_on_both_sides : forall op o k wa wb a,
+  arith_op op = Some o -> (op = BTruncDiv \/ op = BMod \/ op = BRem) -> (k = KU \/ k = KS) ->
+  bin_eval op (TV k wa a) (TV k wb 0) = TUndef /\ eval_binop o (scalar_value k wa a) (scalar_value k wb 0) = Err EDivZero.
+Proof. exact div_by_zero_both_undefined. Qed.
+Print Assumptions C02_division_by_zero_undefined_on_both_sides.
+
+Theorem C02_agrees_with_numeric_std_compare_unsigned : forall op wa wb a b,
+  eval_binop (cmp_op op) (scalar_value KU wa a) (scalar_value KU wb b) = Ok (to_value (cmp_eval op (TV KU wa a) (TV KU wb b))).
+Proof. exact compare_agrees_UU. Qed.
+Print Assumptions C02_agrees_with_numeric_std_compare_unsigned.
+
+Theorem C02_agrees_with_numeric_std_compare_signed : forall op wa wb a b, rng KS wa a -> rng KS wb b ->
+  eval_binop (cmp_op op) (scalar_value KS wa a) (scalar_value KS wb b) = Ok (to_value (cmp_eval op (TV KS wa a) (TV KS wb b))).
+Proof. exact compare_agrees_SS. Qed.
+Print Assumptions C02_agrees_with_numeric_std_compare_signed.
+
+Theorem C02_agrees_with_numeric_std_compare_unsigned_int : forall op w a n, 0 <= n <= int_max ->
+  eval_binop (cmp_op op) (scalar_value KU w a) (VI n) = Ok (to_value (cmp_eval op (TV KU w a) (TV KInt 0 n))).
+Proof. exact compare_agrees_U_int. Qed.
+Print Assumptions C02_agrees_with_numeric_std_compare_unsigned_int.
+
+Theorem C02_agrees_with_numeric_std_neg_abs_signed : forall w a, rng KS w a ->
+  eval_unop UNeg (scalar_value KS w a) = Ok (to_value (un_eval NNeg (TV KS w a))) /\
+  eval_unop UAbs (scalar_value KS w a) = Ok (to_value (un_eval NAbs (TV KS w a))).
+Proof. exact neg_abs_agrees_S. Qed.
+Print Assumptions C02_agrees_with_numeric_std_neg_abs_signed.
+
+Theorem C02_agrees_with_numeric_std_mul_int_partial : forall w a n, rng KU w a -> 0 <= n < pow2 w -> n <= int_max ->
+  eval_binop OMul (scalar_value KU w a) (VI n) = Ok (to_value (bin_eval BMul (TV KU w a) (TV KInt 0 n))).
+Proof. exact mul_int_agrees_partial. Qed.
+Print Assumptions C02_agrees_with_numeric_std_mul_int_partial.
+
+Theorem C02_agrees_with_numeric_std_mul_int_refuted : exists w a n,
+  rng KU w a /\ 0 <= n /\
+  eval_binop OMul (scalar_value KU w a) (VI n) <> Ok (to_value (bin_eval BMul (TV KU w a) (TV KInt 0 n))).
+Proof. exact mul_int_refuted. Qed.
+Print Assumptions C02_agrees_with_numeric_std_mul_int_refuted.
+
+Theorem C02_agrees_with_numeric_std_neg_unsigned_refuted : forall w a,
+  eval_unop UNeg (scalar_value KU w a) = Err ETypeError /\
+  (wf_scalar KU w = true -> un_eval NNeg (TV KU w a) = mk KU w (- a)).
+Proof. exact neg_unsigned_refuted. Qed.
+Print Assumptions C02_agrees_with_numeric_std_neg_unsigned_refuted.
+
+Theorem C02_agrees_with_numeric_std_negative_int_refuted : forall w a n, n < 0 ->
+  eval_binop OAdd (scalar_value KU w a) (VI n) = Err ERange /\ bin_eval BAdd (TV KU w a) (TV KInt 0 n) = mk KU w (a + n).
+Proof. exact negative_int_refuted. Qed.
+Print Assumptions C02_agrees_with_numeric_std_negative_int_refuted.
+
+Theorem C02_select_first_match : forall z key v r d,
+  sel_pick z ((key, v) :: r) d = (if z =? key then Some v else sel_pick z r d) /\
+  (forall pre, Forall (fun p => fst p <> z) pre -> sel_pick z (pre ++ (z, v) :: r) d = Some v) /\
+  (forall br, Forall (fun p => fst p <> z) br -> sel_pick z br d = d).
+Proof. exact select_first_match. Qed.
+Print Assumptions C02_select_first_match.
+
+Example C02_select_nonvacuous :
+  xeval [TV KU 2 1; TV KU 3 5] (XSel (XIn 0 (Ty KU 2)) [(0, XConst KU 3 7); (1, XIn 1 (Ty KU 3)); (1, XConst KU 3 0)] (Some (XConst KU 3 2)))
+  = TV KU 3 5 /\
+  xeval [TV KU 2 3; TV KU 3 5] (XSel (XIn 0 (Ty KU 2)) [(0, XConst KU 3 7); (1, XIn 1 (Ty KU 3))] (Some (XConst KU 3 2))) = TV KU 3 2.
+Proof. vm_compute. auto. Qed.
+Print Assumptions C02_select_nonvacuous.
+
+Theorem C02_chained_compare_is_conjunction : forall en a o1 b o2 c,
+  xeval en (XChain a [(o1, b); (o2, c)]) =
+  match xeval en (XCmp o1 a b), xeval en (XCmp o2 b c) with
+  | TV _ _ x, TV _ _ y => TV KBool 1 (zb (truthy x && truthy y))
+  | _, _ => TUndef
+  end.
+Proof. exact chained_compare_is_conjunction. Qed.
+Print Assumptions C02_chained_compare_is_conjunction.
+
+Theorem C02_concat_msb_left : forall ka wa a kb wb b,
+  is_vec ka = true -> is_vec kb = true -> rng ka wa a -> rng kb wb b ->
+  exists z, bin_eval BConcat (TV ka wa a) (TV kb wb b) = TV KBV (wa + wb) z /\
+            getslice z wb wa = pat ka wa a /\ getslice z 0 wb = pat kb wb b.
+Proof. exact concat_msb_left. Qed.
+Print Assumptions C02_concat_msb_left.
+
+Example C02_concat_nonvacuous : rng KS 2 (-1) /\ rng KU 3 2 /\ bin_eval BConcat (TV KS 2 (-1)) (TV KU 3 2) = TV KBV 5 26.
+Proof. vm_compute. auto. Qed.
+Print Assumptions C02_concat_nonvacuous.
+
+Theorem C02_shift_right_kind : forall w a n, 0 <= n ->
+  (rng KU w a -> bin_eval BShr (TV KU w a) (TV KInt 0 n) = TV KU w (a / 2 ^ n) /\ 0 <= a / 2 ^ n <= a) /\
+  (rng KS w a -> bin_eval BShr (TV KS w a) (TV KInt 0 n) = TV KS w (a / 2 ^ n) /\ (a < 0 <-> a / 2 ^ n < 0)).
+Proof. exact shift_right_kind. Qed.
+Print Assumptions C02_shift_right_kind.
+
+Example C02_shift_right_signed_is_not_logical :
+  bin_eval BShr (TV KS 3 (-4)) (TV KInt 0 1) = TV KS 3 (-2) /\
+  bin_eval BShr (TV KU 3 4) (TV KInt 0 1) = TV KU 3 2 /\
+  sval 3 (pat KS 3 (-4) / 2) = 2.
+Proof. exact shift_right_signed_is_not_logical. Qed.
+Print Assumptions C02_shift_right_signed_is_not_logical.
